@@ -85,13 +85,13 @@ Lemma buffer_tag_ws sp : forall t, buffer_ws_stmt sp t.
 Proof.
   induction t as [id v|id|id|id cs IHcs] using tag_ind'; unfold buffer_ws_stmt; intros o st s;
     rewrite (buffer_tag_eq sp _ o (with_script st s)), (buffer_tag_eq sp _ o st);
-    cbn [tag_id is_master_tag is_end with_script w_open].
-  all: destruct (o_unknown o && negb (is_master_ty (get_type sp id))); [reflexivity|].
-  all: destruct (is_master_ty (get_type sp id) && negb _); [reflexivity|].
+    cbn [tag_id is_master_tag is_end with_script w_open]; raw_simpl.
+  all: destruct (o_unknown o && negb (is_master_ty _)); [reflexivity|].
+  all: destruct (is_master_ty _ && negb _); [reflexivity|].
   all: destruct (should_validate sp _ && negb _); [reflexivity|].
-  all: unfold buffer_act; cbn [tag_id].
+  all: unfold buffer_act; cbn [tag_id]; raw_simpl.
   - destruct (o_unknown o); [reflexivity|].
-    destruct (get_type sp id) as [[]|]; try reflexivity; apply write_element_ws.
+    destruct (raw_type (TElem id v) (get_type sp id)) as [[]|]; try reflexivity; apply write_element_ws.
   - destruct (o_unknown o); [reflexivity|].
     destruct (get_type sp id) as [[]|]; try reflexivity; destruct (is_vint id); reflexivity.
   - destruct (o_unknown o); [apply end_tag_ws|].
